@@ -207,6 +207,8 @@ def run(ctx):
     eng2 = cm.engine()
     ctx.verify(eng2, [cm.CONTRACTS[0]])
     ctx.verify(ck.engine(), [ck.VERIFY[1]])
+    from contracts import c_io
+    ctx.verify(c_io.engine(), c_io.VERIFY)
     rnd = random.Random(ctx.seed)
     designs = list(dag_designs())
     refs = {}
